@@ -369,6 +369,22 @@ def transparency_far(a64: bool, start: int, variant: int, tail: int) -> bool:
     return verdict(ok, nontrivial=nt, sample=sample)
 
 
+def transparency_far_quick(a64: bool, start: int, variant: int, tail: int) -> bool:
+    """
+    pre: 993 <= start <= 1000 and 0 <= variant < 3 and 0 <= tail <= 3
+    post: _
+    """
+    if skip(locals()):
+        return True
+    if tail == 2:
+        return True
+    lo, hi = shard(8)
+    if not (lo <= start - 993 < hi):
+        return True
+    ok, nt, sample = native(_far_concrete, "aarch64" if a64 else "x86", pick(start - 993, 8) + 993, pick(variant, 3), pick(tail, 4))
+    return verdict(ok, nontrivial=nt, sample=sample)
+
+
 def transparency_far2(a64: bool, start: int, variant: int, tail: int) -> bool:
     """
     pre: 0 <= start < 6 and 0 <= variant < 3 and 0 <= tail <= 3
@@ -512,8 +528,9 @@ CELLS = {
                                 "budget": {"quick": 170}, "shards": 12},
     "transparency_long": {"fn": transparency_long, "tiers": ("thorough",), "bound": "40-44 noise lines (kernel of 48-52 lines) before every line 0-7, bare / byte markers / --lines",
                           "budget": {"thorough": 900}, "shards": 16},
-    "transparency_far": {"fn": transparency_far, "bound": "the same kernels starting at every line 985..1004 of a long file (so that the kernel's line numbers straddle 1000, the LCD search's iteration offset) through byte markers / --lines / a whole file with leading blank lines, with the last 0-3 lines cut off so that the selection ends on an instruction of a dependency cycle",
-                         "budget": {"quick": 170, "thorough": 600}, "shards": 20},
+    "transparency_far_quick": {"fn": transparency_far_quick, "tiers": ("quick",), "bound": "as transparency_far for start lines 993..1000 and 0, 1 or 3 lines cut off", "budget": {"quick": 170}, "shards": 8},
+    "transparency_far": {"fn": transparency_far, "tiers": ("thorough",), "bound": "the same kernels starting at every line 985..1004 of a long file (so that the kernel's line numbers straddle 1000, the LCD search's iteration offset) through byte markers / --lines / a whole file with leading blank lines, with the last 0-3 lines cut off so that the selection ends on an instruction of a dependency cycle",
+                         "budget": {"thorough": 600}, "shards": 20},
     "transparency_far2": {"fn": transparency_far2, "tiers": ("thorough",), "bound": "same at start lines 1500, 1999, 2000, 2001, 3007, 12000", "budget": {"thorough": 900}, "shards": 1},
     "cli_lines_over_markers": {"fn": cli_lines_over_markers, "bound": "the real CLI with --lines naming a region that contains a complete pair of comment markers around an inner part (0-2 extra lines on either side, 3 noise layouts, both ISAs): the report equals the one for a twin file whose marker comments are defused - with --lines the markers play no role",
                                "budget": {"quick": 170, "thorough": 600}, "shards": 9},
